@@ -539,3 +539,55 @@ Proof.
       rewrite He. reflexivity. }
     rewrite (resume_feeds_outcome f codes p (e_ev m) _ _ pr (Ok VNone) Hi2); [reflexivity|exact Hp|exact O].
 Qed.
+
+(* every process has its Initialize event (created right after its Process event) *)
+Theorem process_has_initialize codes s p pr :
+  reach codes s -> get_proc p s = Some pr ->
+  exists iev, get_event (S (pev pr)) s = Some iev /\ kind iev = KInit p.
+Proof. intros R Hp. exact (iS_init _ (proj1 (reach_good _ _ R)) _ _ Hp). Qed.
+
+(* _interrupt of interruption i is a callback of event i only, once: it runs only in the step that processes i *)
+Theorem interrupt_callback_only_own_event codes s e ev l i :
+  reach codes s -> get_event e s = Some ev -> cbs ev = Some l -> In (CbInterrupt i) l ->
+  e = i /\ cnt (CbInterrupt i) l = 1%nat /\ exists p, kind ev = KInterruption p.
+Proof. intros R He Cl Hin. exact (iC_intr _ _ _ _ (proj1 (proj2 (reach_good _ _ R))) _ _ _ _ He Cl Hin). Qed.
+
+(* waiter uniqueness, as a statement of its own *)
+Theorem waiter_unique codes s p pr :
+  reach codes s -> get_proc p s = Some pr -> live s p ->
+  exists t tev l, ptarget pr = Some t /\ get_event t s = Some tev /\ cbs tev = Some l /\ cnt (CbResume p) l = 1%nat /\
+    forall t' tev' l', get_event t' s = Some tev' -> cbs tev' = Some l' -> In (CbResume p) l' -> t' = t.
+Proof.
+  intros R Hp (pr0 & pe0 & Hp0 & Hpe & Ope). rewrite Hp in Hp0. injection Hp0 as <-.
+  destruct (reach_good _ _ R) as (HS & HC & HA).
+  destruct (iC_wait _ _ _ _ HC _ _ _ Hp Hpe Ope) as [[]|(t & tev & l & Tg & Ht & Cl & Hin)]; [discriminate|].
+  destruct (iC_res _ _ _ _ HC _ _ _ _ Ht Cl Hin) as (_ & CNT & _).
+  exists t, tev, l. repeat split; auto.
+  intros t' tev' l' H' C' Hin'. destruct (iC_res _ _ _ _ HC _ _ _ _ H' C' Hin') as ((pr' & Hp' & Tg') & _). congruence.
+Qed.
+
+(* along every execution an event stays, keeps the shape of its kind, stays triggered / processed once it is, and an
+   Initialize / Interruption event keeps its outcome *)
+Theorem events_monotone codes s s' e ev :
+  pevK s -> trans_star codes s s' -> get_event e s = Some ev ->
+  exists ev', get_event e s' = Some ev' /\ ev_mono ev ev'.
+Proof.
+  intros K TS. revert ev K. induction TS as [s|s s1 s2 T _ IH]; intros ev K He.
+  - exists ev. split; [exact He|apply ev_mono_refl].
+  - destruct (trans_keeps _ _ _ K T) as (K1 & E1 & _). destruct (E1 _ _ He) as (ev1 & He1 & M1).
+    destruct (IH _ K1 He1) as (ev2 & He2 & M2). exists ev2. split; [exact He2|eapply ev_mono_trans; eassumption].
+Qed.
+
+(* the Interrupt(cause) delivered is the one issued: the interruption event keeps its outcome until (and after) it
+   is processed, and once processed it stays processed *)
+Theorem interruption_keeps_cause codes s s' i iev p cause :
+  reach codes s -> trans_star codes s s' ->
+  get_event i s = Some iev -> kind iev = KInterruption p -> out iev = Some (Fail (EInterrupt, [cause])) ->
+  exists iev', get_event i s' = Some iev' /\ kind iev' = KInterruption p /\
+               out iev' = Some (Fail (EInterrupt, [cause])) /\ (cbs iev = None -> cbs iev' = None).
+Proof.
+  intros R TS Hi K O. pose proof (iS_pev _ (proj1 (reach_good _ _ R))) as PK.
+  destruct (events_monotone _ _ _ _ _ PK TS Hi) as (iev' & Hi' & (A & B & C & D)).
+  exists iev'. split; [exact Hi'|]. split; [eapply kshape_eq_interruption; eassumption|]. split; [|exact C].
+  rewrite D; [exact O|rewrite K; reflexivity|congruence].
+Qed.
